@@ -1,5 +1,6 @@
 import Soa.Model.Vec
 import Soa.Spec.Vec
+import Soa.Model.IndexRun
 /-!
 # Scenario interpreter: one operation per line, one observation line per side
 
@@ -14,6 +15,15 @@ structure Ctx where
   shape : Shape
   drops : Bool
   kinds : List Char
+  prof : IdxIR.Prof := .debug
+
+/-- forget the payload kinds: the shape as the index layer sees it -/
+def toIdxShape : Shape → IdxIR.Shape
+  | .leaf _ => .leaf
+  | .nest fs => .nest (go fs)
+where go : List Shape → List IdxIR.Shape
+  | [] => []
+  | f :: fs => toIdxShape f :: go fs
 
 def Ctx.kindOf (cx : Ctx) (id : Nat) : Char := cx.kinds.getD (id % 8) 's'
 def Ctx.maskId (cx : Ctx) (id : Nat) : Nat := if cx.kindOf id = 'z' then 0 else id
@@ -294,9 +304,55 @@ def step (cx : Ctx) (w : World) (ws : List String) : StepOut :=
       let (rows, es) := assignS w.rows q (os.ret.getD [])
       { w := { w with regs, rows }, i := { status := "ok", ev := oi.ev ++ ei }, s := { status := "ok", ev := os.ev ++ es } }
     | _, _ => badOp w
-  | _ =>
-    let _ := nl
-    badOp w
+  | acc :: r :: kind :: mode :: form :: a :: b :: rest =>
+    -- checked / panicking indexing through the extracted index layer
+    if acc != "get" && acc != "index" then badOp w else
+    match parseReg r, a.toNat?, b.toNat? with
+    | some r, some a, some b =>
+      let ex := rest == ["ex"]
+      let fm : Option IdxIR.Form := match form with
+        | "pos" => some .pos | "range" => some .range | "rangeto" => some .rangeTo | "rangefrom" => some .rangeFrom
+        | "full" => some .rangeFull | "incl" => some .rangeIncl | "toincl" => some .rangeToIncl | _ => none
+      -- inherent accessors forward to the index traits: `SliceMut::get` goes through `as_slice()`,
+      -- `SliceMut::get_mut` through `reborrow()`, the vector ones directly
+      let km : Option (IdxIR.Kind × Bool) := match kind, mode with
+        | "vec", "shared" => some (.vecRef, false) | "vec", "mut" => some (.vecMut, true)
+        | "slice", "shared" => some (.slice, false) | "slicemut", "shared" => some (.slice, false)
+        | "slicemut", "mut" => some (.sliceMut, true) | _, _ => none
+      match fm, km with
+      | some fm, some (k, isMut) =>
+        let getting := acc == "get"
+        let iv : IdxIR.IV := match fm with
+          | .pos => { form := fm, pos := a }
+          | .rangeIncl => if ex then { form := fm, start := b, end_ := b, exhausted := true } else { form := fm, start := a, end_ := b }
+          | _ => { form := fm, start := a, end_ := b }
+        let m : IdxIR.M := match getting, isMut with
+          | true, false => .get | true, true => .getMut | false, false => .index | false, true => .indexMut
+        let c := getI r
+        let n := c.firstLen
+        let res := IdxIR.run cx.prof n (toIdxShape sh) k iv m
+        let renderWin (cols : List (List Nat)) (s l : Nat) : String :=
+          if fm == .pos then fmtNats (cols.map (fun col => col.getD s 0))
+          else fmtCols (cols.map (fun col => (col.drop s).take l))
+        let ci := cx.maskCols c.leaves
+        let obsI : Obs := match res with
+          | .ok (.some_ (.win s l)) => { status := "ok", ret := "some" ++ renderWin ci s l ++ " inb=true" }
+          | .ok .none_ => { status := "ok", ret := "none inb=true" }
+          | .ok (.win s l) => { status := "ok", ret := renderWin ci s l ++ " inb=true" }
+          | .err .panic => { status := "panic" }
+          | .err .ub => { status := "ub" }
+          | _ => { status := "stuck" }
+        let rs := getS r
+        let cs := cx.maskCols (rowsCols nl rs)
+        let obsS : Obs := match IdxIR.stdGet rs.length iv, getting with
+          | some (s, l), true => { status := "ok", ret := "some" ++ renderWin cs s l ++ " inb=true" }
+          | none, true => { status := "ok", ret := "none inb=true" }
+          | some (s, l), false => { status := "ok", ret := renderWin cs s l ++ " inb=true" }
+          | none, false => { status := "panic" }
+        { w, i := obsI, s := obsS }
+      | _, _ => badOp w
+    | _, _, _ => badOp w
+  | _ => badOp w
 
 def Ctx.fmtRegsI (cx : Ctx) (w : World) : String :=
   ";".intercalate (w.regs.map (fun c => fmtCols (cx.maskCols c.leaves)))
@@ -311,6 +367,8 @@ def stepLines (cx : Ctx) (w : World) (n : Nat) (line : String) : World × String
   let li := (w.li.add cx r.madeI (r.i.ev ++ r.i.rev))
   let ls := (w.ls.add cx r.madeI (r.s.ev ++ r.s.rev))
   let w' := { r.w with li, ls }
+  let pure := ["get", "index", "len", "is_empty", "view", "iter", "bounds", "tget", "ptr", "refs"].contains (ws.headD "")
+  if pure then (w', s!"I {n} {cx.fmtObs r.i} regs=~", s!"S {n} {cx.fmtObs r.s} regs=~") else
   (w', s!"I {n} {cx.fmtObs r.i} regs={cx.fmtRegsI w'}", s!"S {n} {cx.fmtObs r.s} regs={cx.fmtRegsS w'}")
 
 /-- the final drop of every register, and the ledger audit -/
@@ -338,11 +396,11 @@ partial def parseTree : List String → Option (Shape × List String)
     | _ => none
   | [] => none
 
-def parseShapeLine (line : String) : Option Ctx :=
+def parseShapeLine (prof : IdxIR.Prof) (line : String) : Option Ctx :=
   match (line.splitOn " ").filter (· ≠ "") with
   | "shape" :: _name :: dr :: toks =>
     match parseTree toks with
-    | some (sh, []) => some { shape := sh, drops := dr == "drops=1", kinds := sh.kinds }
+    | some (sh, []) => some { shape := sh, drops := dr == "drops=1", kinds := sh.kinds, prof := prof }
     | _ => none
   | _ => none
 
